@@ -399,6 +399,8 @@ pub fn recipes() -> Vec<Recipe> {
         unit(s.exchange::<DiscardChanges, _, _>(|b| b.finish(), ok))
     });
     // commit: confirmed? x timeout? x persist? x persist-id?
+    // ... x the order in which the caller sets them (a builder's setters commute)
+    for order in [0u8, 1] {
     for confirmed in [None, Some(false), Some(true)] {
         for timeout in [false, true] {
             for persist in [None, Some(false), Some(true)] {
@@ -433,26 +435,39 @@ pub fn recipes() -> Vec<Recipe> {
                     let invalid = (confirmed == Some(true) && persist_id == Some(true))
                         || (confirmed != Some(true) && persist == Some(true));
                     push(
-                        format!("commit confirmed={confirmed:?} timeout={timeout} persist={persist:?} persist-id={persist_id:?}"),
+                        format!("commit confirmed={confirmed:?} timeout={timeout} persist={persist:?} persist-id={persist_id:?}{}", if order == 1 { " setters-in-reverse-order" } else { "" }),
                         feats,
                         dc,
                         invalid,
-                        Params { confirmed, timeout, persist, persist_id, ..Default::default() },
+                        Params { confirmed, timeout, persist, persist_id, variant: order, ..Default::default() },
                         |s, r| {
                             unit(s.exchange::<Commit, _, _>(
                                 |mut b| {
                                     use netconf::message::rpc::operation::Token;
-                                    if let Some(c) = r.p.confirmed {
-                                        b = b.confirmed(c)?;
-                                    }
-                                    if r.p.timeout {
-                                        b = b.confirm_timeout(Duration::from_secs(120))?;
-                                    }
-                                    if let Some(p) = r.p.persist {
-                                        b = b.persist(p.then(|| Token::new("tok-1")))?;
-                                    }
-                                    if let Some(p) = r.p.persist_id {
-                                        b = b.persist_id(p.then(|| Token::new("tok-2")))?;
+                                    let steps: [u8; 4] = if r.p.variant == 1 { [3, 2, 1, 0] } else { [0, 1, 2, 3] };
+                                    for step in steps {
+                                        match step {
+                                            0 => {
+                                                if let Some(c) = r.p.confirmed {
+                                                    b = b.confirmed(c)?;
+                                                }
+                                            }
+                                            1 => {
+                                                if r.p.timeout {
+                                                    b = b.confirm_timeout(Duration::from_secs(120))?;
+                                                }
+                                            }
+                                            2 => {
+                                                if let Some(p) = r.p.persist {
+                                                    b = b.persist(p.then(|| Token::new("tok-1")))?;
+                                                }
+                                            }
+                                            _ => {
+                                                if let Some(p) = r.p.persist_id {
+                                                    b = b.persist_id(p.then(|| Token::new("tok-2")))?;
+                                                }
+                                            }
+                                        }
                                     }
                                     b.finish()
                                 },
@@ -463,6 +478,7 @@ pub fn recipes() -> Vec<Recipe> {
                 }
             }
         }
+    }
     }
     // cancel-commit
     for pid in [None, Some(false), Some(true)] {
